@@ -162,6 +162,8 @@ def worldOp (op : String) (a : List Int) : Option String :=
                 let cur := amount / 1000000
                 let endIx : Option Bool := if code == 0 then none else some (code == 2)
                 some (showResB ((World.startFlashloan c cur.toNat endIdx.toNat endIx).map fun f => s!"{f}"))
+              else if op == "wd.closeacct" then
+                some (showResB ((World.closeAccount c).map fun _ => "closed"))
               else if op == "wd.endfl" then
                 some (showResB ((World.endFlashloan c amount.toNat).map fun f => s!"{f}"))
               else if op == "wd.bkr" then
